@@ -191,9 +191,11 @@ def is_const_sleep(prog, bi, a):
 
 def timer_branch(prog, bi, sel):
     """does this select have a branch that is a constant-duration timer (directly or a coroutine whose
-    only wait is such a timer)?"""
+    only wait is such a timer)?  Returns "restarts" if the timer future is (re)created inside a loop of this body."""
     for br in sel.branches:
         if br.fut_ty == "tokio::time::Sleep":
+            if br.origin is not None and br.origin.kind == "call" and bi.cfg.in_loop(br.origin.data):
+                return "restarts"
             return True
         cid = prog.body_of_type(bi.body, br.fut_ty)
         if cid:
@@ -219,7 +221,12 @@ def r07_4(prog, out):
         for a in bi.awaits:
             cls = await_class(prog, bi, a)
             if cls == "select":
-                g = guarded or timer_branch(prog, bi, a.select)
+                tb = timer_branch(prog, bi, a.select)
+                if tb == "restarts" and not guarded:
+                    found[0] += 1
+                    out.violation("%s:timer-restarts" % prog.short(bi.body.id), bi.loc(a.poll_bb), "the Pull's wait limit is a timer created inside the wait loop: it starts "
+                                  "again on every wake-up, so a Pull that keeps being woken without getting a message never reaches its server-side limit")
+                g = guarded or bool(tb)
                 for br in a.select.branches:
                     cid = prog.body_of_type(bi.body, br.fut_ty)
                     if cid:
